@@ -49,14 +49,19 @@ class HTMLFileTitleHandler(FileHandler):
         entry = FileHandler.getentry(self)
         parser = HTMLTitleParser()
 
-        with self.vfs.open(self.getselector(), "rb") as fp:
-            while not parser.gotcompletetitle:
-                line = fp.readline()
-                if not line:
-                    break
-                # The PY3 HTML parser doesn't handle surrogateescape
-                parser.feed(line.decode(errors="replace"))
-            parser.close()
+        try:
+            with self.vfs.open(self.getselector(), "rb") as fp:
+                while not parser.gotcompletetitle:
+                    line = fp.readline()
+                    if not line:
+                        break
+                    # The PY3 HTML parser doesn't handle surrogateescape
+                    parser.feed(line.decode(errors="replace"))
+                parser.close()
+        except (AssertionError, ValueError):
+            # html.parser gives up on some malformed markup (e.g. "<![ endif]>"
+            # raises AssertionError): the document then simply has no title.
+            parser.gotcompletetitle = False
 
         # OK, we've parsed the file and exited because of either an EOF
         # or a complete title (or error).  Now, figure out what happened.
